@@ -13,12 +13,9 @@ Definition secs_of (m : mode) (sds : list secdef) (syncs : list (option cmap)) :
   map (fun isd => spec_section m (snd isd) (last_good (fst isd) syncs))
       (combine (seq 0 (length sds)) sds).
 
-Fixpoint avail_after (a : bool) (ops : list op) : bool :=
-  match ops with
-  | [] => a
-  | ONop :: t => avail_after a t
-  | _ :: t => avail_after true t
-  end.
+Definition avail_after (a : bool) (ops : list op) : bool := a || negb (is_nil ops).
+
+Definition inf_fold (inf : option cmap) (ops : list op) : option cmap := fold_left inf_after ops inf.
 
 (* ---------- list plumbing ---------- *)
 Lemma hd_skipn {A} (d : A) : forall k c, hd d (skipn k c) = nth k c d.
@@ -34,19 +31,16 @@ Lemma map_snd_combine_seq {A B} (f : A -> B) : forall l k,
   map (fun isd : nat * A => f (snd isd)) (combine (seq k (length l)) l) = map f l.
 Proof. induction l; intros k; simpl; [reflexivity|]. f_equal. apply IHl. Qed.
 
-Lemma eff_syncs_app : forall ops a o,
-  eff_syncs a (ops ++ [o]) = eff_syncs a ops ++ eff_syncs (avail_after a ops) [o].
+Lemma eff_syncs_app : forall ops a inf o,
+  eff_syncs a inf (ops ++ [o])
+  = eff_syncs a inf ops ++ eff_syncs (avail_after a ops) (inf_fold inf ops) [o].
 Proof.
-  induction ops as [|x ops IH]; intros a o; [reflexivity|].
-  destruct x as [c| |oc]; simpl.
-  - rewrite IH. reflexivity.
-  - apply IH.
-  - destruct a; simpl; rewrite IH; reflexivity.
+  induction ops as [|x ops IH]; intros a inf o.
+  - unfold avail_after. simpl. rewrite orb_false_r. reflexivity.
+  - change ((x :: ops) ++ [o]) with (x :: (ops ++ [o])).
+    cbn [eff_syncs]. rewrite IH, <- app_assoc.
+    unfold avail_after. simpl. rewrite orb_true_r. reflexivity.
 Qed.
-
-Lemma avail_after_app : forall ops a o,
-  avail_after a (ops ++ [o]) = avail_after (avail_after a ops) [o].
-Proof. induction ops as [|x ops IH]; intros a o; [reflexivity|]. destruct x; simpl; apply IH. Qed.
 
 Lemma last_good_snoc i pre oc :
   last_good i (pre ++ [oc]) =
@@ -84,24 +78,38 @@ Qed.
 
 (* ---------- the invariant over all histories ---------- *)
 Theorem run_state_spec m sds : forall ops,
-  st_secs (run_state m sds ops) = secs_of m sds (eff_syncs false ops)
-  /\ st_avail (run_state m sds ops) = avail_after false ops.
+  st_secs (run_state m sds ops) = secs_of m sds (eff_syncs false None ops)
+  /\ st_avail (run_state m sds ops) = avail_after false ops
+  /\ st_inf (run_state m sds ops) = inf_fold None ops.
 Proof.
-  induction ops as [|o ops [IHs IHa]] using rev_ind.
-  - split; [|reflexivity]. unfold run_state, secs_of. simpl.
+  induction ops as [|o ops (IHs & IHa & IHi)] using rev_ind.
+  - split; [|split; reflexivity]. unfold run_state, secs_of. simpl.
     symmetry. apply (map_snd_combine_seq default_of sds 0).
-  - unfold run_state in *. rewrite fold_left_app. simpl.
-    rewrite eff_syncs_app, avail_after_app.
+  - unfold run_state in *. rewrite fold_left_app.
+    rewrite eff_syncs_app. unfold inf_fold in *. rewrite fold_left_app.
     set (st := fold_left (step m sds) ops (init sds)) in *.
-    destruct o as [c| |oc]; simpl.
-    + split; [|reflexivity]. rewrite IHs. unfold secs_of.
-      exact (sync_secs_spec m (eff_syncs false ops) c sds 0).
-    + rewrite app_nil_r. split; assumption.
-    + rewrite IHa. destruct (avail_after false ops) eqn:Ea; simpl.
-      * rewrite app_nil_r. split; assumption.
-      * destruct oc as [c|]; simpl; split; try reflexivity.
-        -- rewrite IHs. unfold secs_of. exact (sync_secs_spec m (eff_syncs false ops) c sds 0).
-        -- apply secs_of_none.
+    assert (avail_after false (ops ++ [o]) = true) as Ht
+      by (unfold avail_after; destruct ops; reflexivity).
+    rewrite Ht. clear Ht.
+    assert (forall st', st_secs st' = st_secs st -> st_avail st' = st_avail st ->
+            st_secs (ensure_avail m sds st')
+            = secs_of m sds (eff_syncs false None ops
+                             ++ (if avail_after false ops then [] else [st_inf st']))
+            /\ st_avail (ensure_avail m sds st') = true
+            /\ st_inf (ensure_avail m sds st') = st_inf st') as Hens.
+    { intros st' Hs Ha. unfold ensure_avail. rewrite Ha, IHa.
+      destruct (avail_after false ops) eqn:Ea.
+      - rewrite app_nil_r. repeat split; congruence.
+      - cbn [st_secs st_avail st_inf]. repeat split. rewrite Hs, IHs.
+        destruct (st_inf st') as [c|]; simpl.
+        + unfold secs_of. exact (sync_secs_spec m (eff_syncs false None ops) c sds 0).
+        + apply secs_of_none. }
+    cbn [fold_left]. unfold step.
+    destruct o as [c|c| | |oc]; cbn [handle eff_syncs inf_after app]; rewrite ?app_nil_r.
+    2-5: try rewrite <- IHi;
+      match goal with |- st_secs (ensure_avail _ _ ?s) = _ /\ _ => apply (Hens s); reflexivity end.
+    unfold ensure_avail. cbn [st_avail st_secs st_inf]. repeat split.
+    rewrite IHs. unfold secs_of. exact (sync_secs_spec m (eff_syncs false None ops) c sds 0).
 Qed.
 
 (* ---------- what a node gets from a cached section ---------- *)
@@ -131,18 +139,62 @@ Qed.
 Lemma observe_run_state m sds nodes ops :
   observe nodes (run_state m sds ops) = spec_observe m sds nodes ops.
 Proof.
-  unfold observe, spec_observe. destruct (run_state_spec m sds ops) as [Hs _]. rewrite Hs.
+  unfold observe, computed, spec_observe. rewrite <- flat_map_concat_map.
+  destruct (run_state_spec m sds ops) as [Hs _]. rewrite Hs.
   apply flat_map_ext. intros ls. unfold secs_of. rewrite map_map.
   apply map_ext. intros [i sd]. apply effective_spec_section.
 Qed.
 
+(* ---------- delivery is the identity on the computed spec ---------- *)
+Lemma list_eqb_sound {A} (f : A -> A -> bool) : forall xs ys,
+  Forall (fun x => forall y, f x y = true -> x = y) xs -> list_eqb f xs ys = true -> xs = ys.
+Proof.
+  induction xs as [|x xs IH]; destruct ys as [|y ys]; simpl; intros HF H; try discriminate; auto.
+  inversion HF as [|? ? Hx HF']; subst.
+  apply andb_true_iff in H. destruct H as [H1 H2]. f_equal; auto.
+Qed.
+
+Lemma cfg_eqb_sound : forall a b, cfg_eqb a b = true -> a = b.
+Proof.
+  induction a as [r o| |fs IH|xs IH|kvs] using cfg_ind2; intros b H.
+  - destruct b as [r' o'| | |]; simpl in H; try discriminate.
+    apply andb_true_iff in H. destruct H as [H1 H2]. apply eqb_prop in H1. subst r'.
+    destruct o as [x|], o' as [y|]; simpl in H2; try discriminate; [|reflexivity].
+    apply Z.eqb_eq in H2. congruence.
+  - destruct b as [|[y|]| |]; simpl in H; try discriminate. reflexivity.
+  - destruct b as [|[y|]| |]; simpl in H; try discriminate.
+    f_equal. f_equal. exact (list_eqb_sound _ _ _ IH H).
+  - destruct b as [| |y|]; simpl in H; try discriminate.
+    f_equal. exact (list_eqb_sound _ _ _ IH H).
+  - destruct b as [| | |y]; simpl in H; try discriminate. f_equal.
+    apply (list_eqb_sound (fun p q : Z * Z => (fst p =? fst q) && (snd p =? snd q))); [|exact H].
+    apply Forall_forall. intros [k v] _ [k' v'] E. simpl in E.
+    apply andb_true_iff in E. destruct E as [E1 E2].
+    apply Z.eqb_eq in E1. apply Z.eqb_eq in E2. congruence.
+Qed.
+
+(* the reconciler delivers exactly the computed spec: it writes it whenever it differs from the stored one *)
+Theorem deliver_node_id stored c : deliver_node stored c = c.
+Proof.
+  destruct stored as [s|]; [|reflexivity]. simpl.
+  destruct (list_eqb cfg_eqb c s) eqn:E; [|reflexivity].
+  symmetry. apply (list_eqb_sound cfg_eqb); [|exact E].
+  apply Forall_forall. intros x _. apply cfg_eqb_sound.
+Qed.
+
+Lemma deliver_id : forall comp stored, deliver stored comp = comp.
+Proof.
+  induction comp as [|c ct IH]; intros stored; [reflexivity|].
+  simpl. rewrite deliver_node_id, IH. reflexivity.
+Qed.
+
 (* ---------- the observation after every operation ---------- *)
-Lemma run_from_prefix m sds nodes : forall ops st,
-  run_from m sds nodes st ops =
+Lemma run_from_prefix m sds nodes : forall ops st dl,
+  run_from m sds nodes st dl ops =
   map (fun k => observe nodes (fold_left (step m sds) (firstn k ops) st)) (seq 1 (length ops)).
 Proof.
-  induction ops as [|o ops IH]; intros st; [reflexivity|].
-  simpl. f_equal. rewrite IH. rewrite <- (seq_shift (length ops) 1), map_map.
+  induction ops as [|o ops IH]; intros st dl; [reflexivity|].
+  simpl. rewrite deliver_id. f_equal. rewrite IH. rewrite <- (seq_shift (length ops) 1), map_map.
   apply map_ext. intros k. reflexivity.
 Qed.
 
